@@ -22,178 +22,146 @@ macro_rules | `(tactic| xg_leaf) => `(tactic| first
   | exact xg_directives _ _ | exact xg_arguments _ _ | exact xg_ty _ | exact xg_value _ _ _
   | exact (xSel _).selSet | exact (xSel _).sel | exact (xSel _).field | exact (xSel _).inline)
 
-macro "xg_auto" : tactic => `(tactic| repeat (first
+/-- takes a composition apart.  The `do` notation shares continuations as join points
+    (`have __do_jp := fun r => …`); they are pulled out and proved once, not once per use. -/
+syntax "xg_auto" : tactic
+macro_rules | `(tactic| xg_auto) => `(tactic| repeat (first
   | (with_reducible xg_leaf)
+  | (with_reducible apply_assumption)
   | (with_reducible apply xg_withNode) | (with_reducible apply xg_bind) | (with_reducible apply xg_ite)
   | (with_reducible apply xg_peekWhile) | (with_reducible apply xg_peekWhileKind)
   | (with_reducible apply xg_parseSeparatedList) | (with_reducible apply xg_peekWhileKindFlagLoop)
-  | (intro _; try dsimp only)
+  | (extract_lets jp
+     have hjp : ∀ r, XG (jp r) := by
+       intro r
+       dsimp (config := { zeta := false }) only [jp]
+       xg_auto
+     clear_value jp)
+  | intro _
   | split))
 
-set_option maxHeartbeats 100000 in
 theorem xg_description : XG description := by unfold description; xg_auto
 macro_rules | `(tactic| xg_leaf) => `(tactic| exact xg_description)
 
-set_option maxHeartbeats 100000 in
 theorem xg_operationType : XG operationType := by unfold operationType; xg_auto
 macro_rules | `(tactic| xg_leaf) => `(tactic| exact xg_operationType)
 
-set_option maxHeartbeats 100000 in
 theorem xg_defaultValue (n : Nat) : XG (defaultValue n) := by unfold defaultValue; xg_auto
 macro_rules | `(tactic| xg_leaf) => `(tactic| exact xg_defaultValue _)
 
-set_option maxHeartbeats 100000 in
 theorem xg_inputValueDefinition (n : Nat) : XG (inputValueDefinition n) := by unfold inputValueDefinition; xg_auto
 macro_rules | `(tactic| xg_leaf) => `(tactic| exact xg_inputValueDefinition _)
 
-set_option maxHeartbeats 100000 in
 theorem xg_variableDefinition (n : Nat) : XG (variableDefinition n) := by unfold variableDefinition; xg_auto
 macro_rules | `(tactic| xg_leaf) => `(tactic| exact xg_variableDefinition _)
 
-set_option maxHeartbeats 100000 in
 theorem xg_variableDefinitions (n : Nat) : XG (variableDefinitions n) := by unfold variableDefinitions; xg_auto
 macro_rules | `(tactic| xg_leaf) => `(tactic| exact xg_variableDefinitions _)
 
-set_option maxHeartbeats 100000 in
 theorem xg_argumentsDefinitionBody (n : Nat) : XG (argumentsDefinitionBody n) := by unfold argumentsDefinitionBody isNameOrString; xg_auto
 macro_rules | `(tactic| xg_leaf) => `(tactic| exact xg_argumentsDefinitionBody _)
 
-set_option maxHeartbeats 100000 in
 theorem xg_argumentsDefinition (n : Nat) : XG (argumentsDefinition n) := by unfold argumentsDefinition; xg_auto
 macro_rules | `(tactic| xg_leaf) => `(tactic| exact xg_argumentsDefinition _)
 
-set_option maxHeartbeats 100000 in
 theorem xg_fragmentDefinition (n : Nat) : XG (fragmentDefinition n) := by unfold fragmentDefinition; xg_auto
 macro_rules | `(tactic| xg_leaf) => `(tactic| exact xg_fragmentDefinition _)
 
-set_option maxHeartbeats 100000 in
 theorem xg_operationDefinition (n : Nat) : XG (operationDefinition n) := by unfold operationDefinition; xg_auto
 macro_rules | `(tactic| xg_leaf) => `(tactic| exact xg_operationDefinition _)
 
-set_option maxHeartbeats 100000 in
 theorem xg_fieldDefinition (n : Nat) : XG (fieldDefinition n) := by unfold fieldDefinition; xg_auto
 macro_rules | `(tactic| xg_leaf) => `(tactic| exact xg_fieldDefinition _)
 
-set_option maxHeartbeats 100000 in
 theorem xg_fieldsDefinition (n : Nat) : XG (fieldsDefinition n) := by unfold fieldsDefinition isNameOrString; xg_auto
 macro_rules | `(tactic| xg_leaf) => `(tactic| exact xg_fieldsDefinition _)
 
-set_option maxHeartbeats 100000 in
 theorem xg_rootOperationTypeDefinition : XG rootOperationTypeDefinition := by unfold rootOperationTypeDefinition; xg_auto
 macro_rules | `(tactic| xg_leaf) => `(tactic| exact xg_rootOperationTypeDefinition)
 
-set_option maxHeartbeats 100000 in
 theorem xg_schemaDefinition (n : Nat) : XG (schemaDefinition n) := by unfold schemaDefinition; xg_auto
 macro_rules | `(tactic| xg_leaf) => `(tactic| exact xg_schemaDefinition _)
 
-set_option maxHeartbeats 100000 in
 theorem xg_schemaExtension (n : Nat) : XG (schemaExtension n) := by unfold schemaExtension; xg_auto
 macro_rules | `(tactic| xg_leaf) => `(tactic| exact xg_schemaExtension _)
 
-set_option maxHeartbeats 100000 in
 theorem xg_nameOrErr : XG nameOrErr := by unfold nameOrErr; xg_auto
 macro_rules | `(tactic| xg_leaf) => `(tactic| exact xg_nameOrErr)
 
-set_option maxHeartbeats 100000 in
 theorem xg_scalarTypeDefinition (n : Nat) : XG (scalarTypeDefinition n) := by unfold scalarTypeDefinition; xg_auto
 macro_rules | `(tactic| xg_leaf) => `(tactic| exact xg_scalarTypeDefinition _)
 
-set_option maxHeartbeats 100000 in
 theorem xg_scalarTypeExtension (n : Nat) : XG (scalarTypeExtension n) := by unfold scalarTypeExtension; xg_auto
 macro_rules | `(tactic| xg_leaf) => `(tactic| exact xg_scalarTypeExtension _)
 
-set_option maxHeartbeats 100000 in
 theorem xg_implementsInterfaces : XG implementsInterfaces := by unfold implementsInterfaces; xg_auto
 macro_rules | `(tactic| xg_leaf) => `(tactic| exact xg_implementsInterfaces)
 
-set_option maxHeartbeats 100000 in
 theorem xg_objectTypeDefinition (n : Nat) : XG (objectTypeDefinition n) := by unfold objectTypeDefinition; xg_auto
 macro_rules | `(tactic| xg_leaf) => `(tactic| exact xg_objectTypeDefinition _)
 
-set_option maxHeartbeats 100000 in
 theorem xg_objectTypeExtension (n : Nat) : XG (objectTypeExtension n) := by unfold objectTypeExtension; xg_auto
 macro_rules | `(tactic| xg_leaf) => `(tactic| exact xg_objectTypeExtension _)
 
-set_option maxHeartbeats 100000 in
 theorem xg_interfaceTypeDefinition (n : Nat) : XG (interfaceTypeDefinition n) := by unfold interfaceTypeDefinition; xg_auto
 macro_rules | `(tactic| xg_leaf) => `(tactic| exact xg_interfaceTypeDefinition _)
 
-set_option maxHeartbeats 100000 in
 theorem xg_interfaceTypeExtension (n : Nat) : XG (interfaceTypeExtension n) := by unfold interfaceTypeExtension; xg_auto
 macro_rules | `(tactic| xg_leaf) => `(tactic| exact xg_interfaceTypeExtension _)
 
-set_option maxHeartbeats 100000 in
 theorem xg_unionMemberTypes : XG unionMemberTypes := by unfold unionMemberTypes; xg_auto
 macro_rules | `(tactic| xg_leaf) => `(tactic| exact xg_unionMemberTypes)
 
-set_option maxHeartbeats 100000 in
 theorem xg_unionTypeDefinition (n : Nat) : XG (unionTypeDefinition n) := by unfold unionTypeDefinition; xg_auto
 macro_rules | `(tactic| xg_leaf) => `(tactic| exact xg_unionTypeDefinition _)
 
-set_option maxHeartbeats 100000 in
 theorem xg_unionTypeExtension (n : Nat) : XG (unionTypeExtension n) := by unfold unionTypeExtension; xg_auto
 macro_rules | `(tactic| xg_leaf) => `(tactic| exact xg_unionTypeExtension _)
 
-set_option maxHeartbeats 100000 in
 theorem xg_enumValueDefinition (n : Nat) : XG (enumValueDefinition n) := by unfold enumValueDefinition isNameOrString; xg_auto
 macro_rules | `(tactic| xg_leaf) => `(tactic| exact xg_enumValueDefinition _)
 
-set_option maxHeartbeats 100000 in
 theorem xg_enumValuesDefinition (n : Nat) : XG (enumValuesDefinition n) := by unfold enumValuesDefinition isNameOrString; xg_auto
 macro_rules | `(tactic| xg_leaf) => `(tactic| exact xg_enumValuesDefinition _)
 
-set_option maxHeartbeats 100000 in
 theorem xg_enumTypeDefinition (n : Nat) : XG (enumTypeDefinition n) := by unfold enumTypeDefinition; xg_auto
 macro_rules | `(tactic| xg_leaf) => `(tactic| exact xg_enumTypeDefinition _)
 
-set_option maxHeartbeats 100000 in
 theorem xg_enumTypeExtension (n : Nat) : XG (enumTypeExtension n) := by unfold enumTypeExtension; xg_auto
 macro_rules | `(tactic| xg_leaf) => `(tactic| exact xg_enumTypeExtension _)
 
-set_option maxHeartbeats 100000 in
 theorem xg_inputFieldsDefinition (n : Nat) : XG (inputFieldsDefinition n) := by unfold inputFieldsDefinition isNameOrString; xg_auto
 macro_rules | `(tactic| xg_leaf) => `(tactic| exact xg_inputFieldsDefinition _)
 
-set_option maxHeartbeats 100000 in
 theorem xg_inputObjectTypeDefinition (n : Nat) : XG (inputObjectTypeDefinition n) := by unfold inputObjectTypeDefinition; xg_auto
 macro_rules | `(tactic| xg_leaf) => `(tactic| exact xg_inputObjectTypeDefinition _)
 
-set_option maxHeartbeats 100000 in
 theorem xg_inputObjectTypeExtension (n : Nat) : XG (inputObjectTypeExtension n) := by unfold inputObjectTypeExtension; xg_auto
 macro_rules | `(tactic| xg_leaf) => `(tactic| exact xg_inputObjectTypeExtension _)
 
-set_option maxHeartbeats 100000 in
 theorem xg_directiveLocation : XG directiveLocation := by unfold directiveLocation; xg_auto
 macro_rules | `(tactic| xg_leaf) => `(tactic| exact xg_directiveLocation)
 
-set_option maxHeartbeats 100000 in
 theorem xg_directiveLocations : XG directiveLocations := by unfold directiveLocations; xg_auto
 macro_rules | `(tactic| xg_leaf) => `(tactic| exact xg_directiveLocations)
 
-set_option maxHeartbeats 4000000 in
 theorem xg_directiveDefinition (n : Nat) : XG (directiveDefinition n) := by unfold directiveDefinition; xg_auto
 macro_rules | `(tactic| xg_leaf) => `(tactic| exact xg_directiveDefinition _)
 
-set_option maxHeartbeats 100000 in
 theorem xg_extensions (n : Nat) : XG (extensions n) := by unfold extensions; xg_auto
 macro_rules | `(tactic| xg_leaf) => `(tactic| exact xg_extensions _)
 
-set_option maxHeartbeats 100000 in
 theorem xg_selectDefinition (n : Nat) (d : Str) : XG (selectDefinition n d) := by unfold selectDefinition; xg_auto
 macro_rules | `(tactic| xg_leaf) => `(tactic| exact xg_selectDefinition _ _)
 
-set_option maxHeartbeats 100000 in
 theorem xg_documentDispatch (n : Nat) (k : Kind) : XG (documentDispatch n k) := by unfold documentDispatch; xg_auto
 macro_rules | `(tactic| xg_leaf) => `(tactic| exact xg_documentDispatch _ _)
 
-set_option maxHeartbeats 100000 in
 theorem xg_documentStep (n : Nat) (k : Kind) : XG (documentStep n k) := by unfold documentStep; xg_auto
 macro_rules | `(tactic| xg_leaf) => `(tactic| exact xg_documentStep _ _)
 
-set_option maxHeartbeats 100000 in
 theorem xg_documentBody (n : Nat) : XG (documentBody n) := by unfold documentBody errIfEmpty; xg_auto
 
-set_option maxHeartbeats 100000 in
 theorem xg_document (n : Nat) : XG (document n) := by unfold document; exact xg_withNode _ _ (xg_documentBody n)
 
 end Apollo.Parse
